@@ -237,7 +237,8 @@ def multi_residue(sx, B):
     start = sx.int("start", 1, 10 ** 6)
     names = SCEN[scen]
     n = len(names)
-    specs = {"A": simple_block("A", 2), "MUL": multi_res_block("MUL")}
+    first = sx.sel("block_numbered_from", [1, 3])
+    specs = {"A": simple_block("A", 2), "MUL": multi_res_block("MUL", first_resid=first)}
     ff = parse_ff([("itp", block_text_itp(specs["MUL"])), ("ff", block_text_ff(specs["A"]))])
     sym = symbolise(sx, ff, specs)
     keys = KEYSETS[keyf](n)
